@@ -429,6 +429,13 @@ def run(ctx):
         "slice order / sorting latency / identity of the best node are NOT compared (outside C16; C15 covers selection)",
     ]
     ctx.prove(["DaeVerif.C16.Props"], ["DaeVerif.C16.Props"], ["DaeVerif/C16/*.lean"], extra_targets=["c16drv"])
+    have = {n for n, _, _ in ctx.obligations}
+    if not ctx.proof_failures and any(n not in have for n in REQUIRED):
+        # seen once: the audit printed all 36 lines but one name was not collected; re-run the audit before judging
+        ctx.say("NOTE: axiom audit incomplete (%s not collected) - running it once more" %
+                ", ".join(n.split(".")[-1] for n in REQUIRED if n not in have)[:200])
+        ctx.obligations = []
+        ctx.prove(["DaeVerif.C16.Props"], ["DaeVerif.C16.Props"], ["DaeVerif/C16/*.lean"], extra_targets=["c16drv"])
     ctx.required_theorems(REQUIRED)
 
     binp = ctx.go_test_build(PKG, [PKG + "/c16_test.go", PKG + "/c16x_test.go"], "c16")
